@@ -5,7 +5,7 @@ from harness import Skip
 from guards import decision_table, block_conditions, fmt_cond, phi_defs
 from poly import Poly
 import sym as S
-from rules.common import eqcov_impl, all_terms
+from rules.common import eqcov_impl, all_terms, adapters_in
 from rules.ts import check_table
 
 INFO = {
@@ -501,6 +501,15 @@ def run(ctx):
                 src = ctx.loop_source(f, _E)
                 if src is not None and Agg("Range", Lit(0), Sym("ENCODED_SIZE"))(src):
                     good = True
+            if not good:
+                # or the same bytes visited as the items of `bytes[..ENCODED_SIZE].iter().enumerate()`
+                for h, blocks in f.body.loops().items():
+                    class _E2:
+                        block = h
+                    src = ctx.loop_source(f, _E2)
+                    if src is not None and Call("enumerate")(src) and Mentions(Call("index", Arg(1), Agg("RangeTo", Sym("ENCODED_SIZE"))))(src) and \
+                            adapters_in(src) in ([], ["enumerate"]):
+                        good = True
             if good:
                 ctx.ok(rule, key, "bytes[i] is read for i in 0..ENCODED_SIZE", loc=f.loc)
             else:
